@@ -30,12 +30,7 @@ type sgen struct {
 // `harness known` maps to the class names below). See notes/C01.md and notes/C02.md.
 var pendingFindings = os.Getenv("VERIF_PENDING") != ""
 
-var pendingClasses = map[string]bool{
-	"source-regex-directly-after-comma":   true, // C01
-	"regex-dimension-before-space-comma":  true, // C01
-	"zero-duration-option-not-printed":    true, // C02
-	"empty-identifier-not-printed":        true, // C02
-}
+var pendingClasses = map[string]bool{}
 
 // gated reports whether a failure of this class is suppressed for now.
 func gated(class string) bool { return pendingClasses[class] && !pendingFindings }
